@@ -150,6 +150,10 @@ def oracleTri (poly : Array (V2 Rat)) (out : List String) : String :=
 def oracleHM (poly : Array (V2 Rat)) (tris : Array (Nat × Nat × Nat)) (out : List String) : String :=
   let n := poly.size
   if tris.any (fun (a, b, c) => a ≥ n || b ≥ n || c ≥ n) then "skip bad-input-index" else
+  -- the clause is about tilings of a SIMPLE polygon (every generated case passes the polygon as the vertex list): the
+  -- triangles an accepted non-simple polygon yields (KNOWN FINDING "no simplicity check") can be exactly disjoint and
+  -- counter-clockwise and still contain a zero-width fold-back, which the `!= Cw` corner tests let through
+  if !(isSimple poly) then "skip vertex-cycle-not-a-simple-polygon" else
   let T := tris.toList.map fun (a, b, c) => [poly.getD a ⟨0,0⟩, poly.getD b ⟨0,0⟩, poly.getD c ⟨0,0⟩]
   let sl := slackOf poly
   if !(T.all (isConvexCcw 0)) then "skip input-triangle-not-ccw" else
@@ -234,6 +238,7 @@ def judgePieces (poly : Array (V2 Rat)) (A tol sl : Rat) (P : List (List (V2 Rat
 def oracleHMPts (poly : Array (V2 Rat)) (tris : Array (Nat × Nat × Nat)) (out : List String) : String :=
   let n := poly.size
   if tris.any (fun (a, b, c) => a ≥ n || b ≥ n || c ≥ n) then "skip bad-input-index" else
+  if !(isSimple poly) then "skip vertex-cycle-not-a-simple-polygon" else
   let T := tris.toList.map fun (a, b, c) => [poly.getD a ⟨0,0⟩, poly.getD b ⟨0,0⟩, poly.getD c ⟨0,0⟩]
   if !(T.all (isConvexCcw 0)) then "skip input-triangle-not-ccw" else
   if !(allDisjoint 0 T) then "skip input-triangles-overlap" else
@@ -273,6 +278,11 @@ def oracleDecompose (poly : Array (V2 Rat)) (A : Rat) (out : List String) : Stri
       judgePieces poly A tol (slackOf poly) P
   | _ => "fail unparsable-output"
 
+/-- consecutive index triples of a flat index buffer as point triangles -/
+def triplesOf (pq : Array (V2 Rat)) : List Nat → List (List (V2 Rat))
+  | a :: b :: c :: r => [pq.getD a ⟨0,0⟩, pq.getD b ⟨0,0⟩, pq.getD c ⟨0,0⟩] :: triplesOf pq r
+  | _ => []
+
 def handler (fn : String) : Option Handler :=
   match fn with
   | "hertel_mehlhorn_pts" => some {
@@ -304,10 +314,41 @@ def handler (fn : String) : Option Handler :=
           let n := poly.size
           if o = ["none"] then "skip empty-index-buffer" else
           if tris.any (fun (a, b, c) => a ≥ n || b ≥ n || c ≥ n) then "skip bad-input-index" else
+          if !(isSimple poly) then "skip vertex-cycle-not-a-simple-polygon" else
           let T := tris.toList.map fun (a, b, c) => [poly.getD a ⟨0,0⟩, poly.getD b ⟨0,0⟩, poly.getD c ⟨0,0⟩]
           if !(T.all (isConvexCcw 0)) then "skip input-triangle-not-ccw" else
           if !(allDisjoint 0 T) then "skip input-triangles-overlap" else
           oracleDecompose poly ((T.map shoelace2).foldl (· + ·) 0) o
+        | none => "skip bad-args" }
+  | "from_polygon_mesh" => some {
+      model := fun a => run (do let poly ← plist pv2; pend
+                                pure (match fromPolygonMesh poly.toArray with
+                                      | .none => "none"
+                                      | .panicEmptyIndices => "panic"
+                                      | .mesh v f => f.foldl (fun s i => s ++ s!" {i}") ("mesh " ++ fpts v ++ s!" {f.size}"))) a
+      -- independent of the model: the mesh keeps the input vertices bit for bit, the flat buffer has 3(n-2) entries, all
+      -- `< n`, and every consecutive triple is a counter-clockwise triangle; the triples' areas add up to the polygon's
+      oracle := fun a o => match run (plist pv2) a with
+        | some poly =>
+          match o with
+          | "panic" :: _ => "fail panic"
+          | ["none"] => "skip triangulation-none"
+          | "mesh" :: rest =>
+            (match run (do let v ← ppts; let f ← plist pnat; pend; pure (v, f)) rest with
+             | none => "fail unparsable-output"
+             | some (v, f) =>
+               let n := poly.length
+               if v.length ≠ n || !((v.zip poly).all fun (x, y) => x.x.toBits == y.x.toBits && x.y.toBits == y.y.toBits) then
+                 "fail vertex-buffer-changed" else
+               if f.length ≠ 3 * (n - 2) then s!"fail flat-index-count {f.length}" else
+               if f.any (· ≥ n) then "fail index-out-of-range" else
+               let pq := (poly.map q2).toArray
+               let T := triplesOf pq f
+               let sl := slackOf pq
+               if (T.map shoelace2).any (fun s => decide (s ≤ -sl)) then
+                 (if isSimple pq then "fail triangle-not-counter-clockwise" else "skip non-simple-input") else
+               if (T.map shoelace2).foldl (· + ·) 0 ≠ shoelace2 pq.toList then "fail area-not-conserved" else "pass")
+          | _ => "fail unparsable-output"
         | none => "skip bad-args" }
   | "triangulate" => some {
       model := fun a => run (do let poly ← plist pv2; pend
